@@ -109,16 +109,18 @@ theorem C01_prekey_single_hello (C : Crypto) (R : Role) (c : Conn) (t : Int) (h 
               apply Classical.byContradiction; intro x; exact hlen x
             have hc : crc32 (take (20 + h.length) d) = beVal (slice (20 + h.length) (20 + h.length + 4) d) := by
               apply Classical.byContradiction; intro x; exact hcrc x
-            unfold recvDatagram at hnd
-            simp only [hf', hk, Option.isNone_none, true_and] at hnd
-            by_cases hgate : pkt.hdr.count ≠ 1 ∨ pkt.hdr.ptype ≠ (if c.isServer then PType.clientHello else PType.serverHello)
-            · simp [hgate] at hnd
-            · rw [hh] at hgate
-              have h1 : h.count = 1 := by
-                apply Classical.byContradiction; intro x; exact hgate (Or.inl x)
-              have h2 : h.ptype = (if c.isServer then PType.clientHello else PType.serverHello) := by
-                apply Classical.byContradiction; intro x; exact hgate (Or.inr x)
-              exact ⟨h1, h2, hl.symm, hc⟩
+            have hgate : gateUnkeyed c pkt = false := by
+              cases hg : gateUnkeyed c pkt with
+              | false => rfl
+              | true =>
+                exfalso; apply hnd
+                unfold recvDatagram
+                simp [hf', hg]
+            unfold gateUnkeyed at hgate
+            simp only [hk, Option.isNone_none, Bool.true_and, Bool.or_eq_false_iff, bne_eq_false_iff_eq] at hgate
+            rw [hh] at hgate
+            refine ⟨hgate.1, ?_, hl.symm, hc⟩
+            rw [hgate.2]; rfl
 
 /-! ### non-vacuity: the hypotheses are met by concrete datagrams -/
 
